@@ -22,13 +22,13 @@ LEAN_LEMMAS = ['running_max_ge', 'running_max_attained']        # /verif/lean/Gh
 FUNCTIONS = ['dassh.assembly:Assembly._update_peak_coolant_temps', 'dassh.assembly:Assembly._update_peak_duct_temps',
              'dassh.assembly:Assembly._update_peak_pin_temps', 'dassh.assembly:Assembly.pin_temp_array',
              'dassh.assembly:Assembly.calculate (order of region update, pressure drop, peak updates)',
-             'dassh.table:DuctTempTable._get_avg_duct_face_temp']
+             'dassh.table:DuctTempTable._get_avg_duct_face_temp', 'dassh.table:CoolantTempTable.make']
 ASSUMPTIONS = ['temperatures are > 0 K so that the initial peak 0.0 is exceeded at the first plane',
                'the whole-sweep statement is the induction over steps of the proved fold step (maximum of a sequence = '
                'fold of binary max; first height of attainment because the update is strict)']
-NOT_DECIDED = ['text tables (CoolantTempTable, PeakPinTempTable; DuctTempTable beyond the bounded run-time contract): '
-               'formatting and unit conversion of the printed numbers',
-               'outlet / average temperatures of the coolant summary table (the duct table\'s face averages are under contract)']
+NOT_DECIDED = ['text tables (PeakPinTempTable; DuctTempTable beyond the bounded run-time contract): '
+               'formatting and unit conversion of the printed numbers; CoolantTempTable: the rounding to two decimals '
+               '(its cells are under contract as the values handed to the formatter)']
 
 
 class _Region:
@@ -270,8 +270,89 @@ def duct_face_avg(S, cfg):
 duct_face_avg.cname = 'DuctTempTable._get_avg_duct_face_temp'
 
 
+def coolant_table(S, cfg):
+    """the coolant summary table through the real CoolantTempTable.make on a reactor whose assemblies answer every
+    query with a distinct atom: the printed cells are read back (numbers formatted by the code carry a token of their
+    value) - bulk outlet = the assembly's mixed-mean outlet temperature (all coolant, bypass included - not the
+    interior average), peak outlet = maximum of the last region's interior coolant field, peak total and its height =
+    the running peak, each in the requested unit"""
+    import dassh
+    from dassh import table, utils
+    n_asm, n_sc = cfg.get('n_asm', 2), cfg.get('n_sc', 3)
+
+    class _R:
+        pass
+
+    class _A:
+        pass
+    r = _R()
+    r.units = {'mass_flow_rate': 'kg/s', 'length': cfg.get('length', 'm'), 'temperature': cfg.get('temperature', 'kelvin')}
+    r.assemblies = []
+    for i in range(n_asm):
+        a = _A()
+        a.id, a.name = i, f'asm{i}'
+        a.total_power = S.pos(f'power[{i}]', 1e4, 1e6)
+        a.flow_rate = S.pos(f'flow[{i}]', 0.5, 20.0)
+        a.avg_coolant_temp = S.pos(f'T_mixed_mean[{i}]', 650.0, 800.0)
+        a.avg_coolant_int_temp = S.pos(f'T_interior_mean[{i}]', 650.0, 800.0)
+        last, first = _Region({'coolant_int': S.vec(f'Tout[{i}]', n_sc, 'pos', 600.0, 900.0)}), \
+            _Region({'coolant_int': S.vec(f'Tother[{i}]', n_sc, 'pos', 600.0, 900.0)})
+        a.region = [first, last]
+        a.active_region = last
+        a._peak = {'cool': (S.pos(f'T_peak[{i}]', 700.0, 950.0), S.pos(f'z_peak[{i}]', 0.1, 3.0))}
+        r.assemblies.append(a)
+    t = table.CoolantTempTable()
+    t.make(r)
+    rows = [ln for ln in t._table.splitlines() if ln.strip() and ln.split()[0].isdigit()]
+    S.holds('table.one_row_per_assembly', len(rows) == n_asm)
+    tconv = (lambda v: v) if r.units['temperature'] in utils._DEFAULT_UNITS['temperature'] else \
+        utils.get_temperature_conversion('K', r.units['temperature'])
+    lconv = (lambda v: v) if r.units['length'] in utils._DEFAULT_UNITS['length'] else \
+        utils.get_length_conversion('m', r.units['length'])
+    for i, ln in enumerate(rows[:n_asm]):
+        cells = ln.split()
+        a = r.assemblies[i]
+        if S.mode == 'sym':
+            val = [core.parse_token(c) for c in cells]
+        else:
+            val = []
+            for c in cells:
+                try:
+                    val.append(float(c))
+                except ValueError:
+                    val.append(None)
+        # columns: index, name, power, flow, bulk outlet, peak outlet, peak total, peak + unc., height
+        S.holds(f'table.row_shape[{i}]', len(cells) == 9 and all(v is not None for v in val[2:7] + val[8:9]))
+        if len(cells) != 9 or any(v is None for v in val[2:7] + val[8:9]):
+            continue
+        tol = dict(scale=1.0) if S.mode != 'sym' else {}
+        field = [tconv(x) for x in a.region[-1].temp['coolant_int']]
+        want_out = max(field) if S.mode != 'sym' else None
+        if S.mode == 'sym':
+            S.eq(f'table.power[{i}]', val[2], a.total_power)
+            S.eq(f'table.flow[{i}]', val[3], a.flow_rate)
+            S.eq(f'table.bulk_outlet_is_mixed_mean[{i}]', val[4], tconv(a.avg_coolant_temp))
+            _is_max(S, f'table.peak_outlet_is_max_of_final_plane[{i}]', val[5], field[0], field[1:])
+            S.eq(f'table.peak_total[{i}]', val[6], tconv(a._peak['cool'][0]))
+            S.eq(f'table.peak_height[{i}]', val[8], lconv(a._peak['cool'][1]))
+        else:
+            # natively the cells are rounded to two decimals
+            S.le(f'table.bulk_outlet_is_mixed_mean[{i}]', abs(val[4] - tconv(a.avg_coolant_temp)), 0.00501)
+            S.le(f'table.peak_outlet_is_max_of_final_plane[{i}].ge', abs(val[5] - want_out), 0.00501)
+            S.le(f'table.peak_total[{i}]', abs(val[6] - tconv(a._peak['cool'][0])), 0.00501)
+            S.le(f'table.peak_height[{i}]', abs(val[8] - lconv(a._peak['cool'][1])), 0.00501)
+    if S.mode == 'sym' and rows and len(rows[0].split()) == 9 and core.parse_token(rows[0].split()[4]) is not None:
+        S.eq('canary.table_bulk_outlet_is_interior_mean', core.parse_token(rows[0].split()[4]),
+             tconv(r.assemblies[0].avg_coolant_int_temp), canary=True)
+
+
+coolant_table.cname = 'CoolantTempTable.make'
+coolant_table.run_kw = dict(pool_size=8, check_div=False)
+
+
 def configs(tier):
-    out = [(coolant, dict(n=3)),
+    out = [(coolant_table, dict()), (coolant_table, dict(temperature='celsius', length='cm')),
+           (coolant, dict(n=3)),
            (duct, dict(n_region_ducts=1, n_peak_ducts=1, cells=2)),
            (duct, dict(n_region_ducts=1, n_peak_ducts=2, cells=2)),
            (duct, dict(n_region_ducts=2, n_peak_ducts=2, cells=2)),
